@@ -8,6 +8,7 @@ package main
 import (
 	"go/types"
 	"strconv"
+	"strings"
 
 	"golang.org/x/tools/go/ssa"
 )
@@ -385,6 +386,11 @@ func (P *Prog) constTable(fn *ssa.Function, pi, ri int) (map[string]string, stri
 			}
 		}
 	}
+	// a scan of a constant package-level list of groups: `for i := range G {
+	// if slices.Contains(G[i].keys, x) { return G[i].value } }; return D`
+	if tab := P.scanTable(fn, pi, ri); tab != nil {
+		return tab, ""
+	}
 	// the comma-ok form: `if v, ok := table[x]; ok { return v }; return D`
 	if ps := P.allPaths(fn); len(ps) == 2 {
 		var hit, miss *Path
@@ -582,7 +588,7 @@ func (P *Prog) expandBoolCalls(conds []Fact, depth int) [][]Fact {
 				for i, a := range c.Pred.Args {
 					m[itoa(int64(i))] = a
 				}
-				for _, gp := range P.allPaths(g) {
+				for _, gp := range P.pathsForExpansion(g) {
 					if !gp.feasible() {
 						continue
 					}
@@ -868,6 +874,83 @@ func (P *Prog) successCases(fn *ssa.Function) []pathCase {
 			if ok {
 				out = append(out, pathCase{p, cs, fs})
 			}
+		}
+	}
+	return out
+}
+
+// scanTable lowers a first-match scan over a constant package-level slice to
+// a table: every iteration either returns a value that is constant once the
+// index is fixed, under the single condition slices.Contains(K, param) with K
+// a constant list, or continues; behind the loop a constant is returned.
+func (P *Prog) scanTable(fn *ssa.Function, pi, ri int) map[string]string {
+	loops := findLoops(fn)
+	if len(loops) != 1 {
+		return nil
+	}
+	L := loops[0]
+	if !L.fullRange || L.over == nil || L.idx == nil || L.body == nil || L.exit == nil || !(L.kind == "counted" || L.kind == "slice-range") {
+		return nil
+	}
+	ot := P.terms.of(L.over)
+	if !(ot.Op == "load" && len(ot.Args) == 1 && ot.Args[0].Op == "global") {
+		return nil
+	}
+	gv := P.constGlobalValue(ot.Args[0].S)
+	if gv == nil || gv.Op != "arr" || len(gv.Args) == 0 || len(gv.Args) > 32 {
+		return nil
+	}
+	pt := T("param", itoa(int64(pi)))
+	out := map[string]string{}
+	isHeader := func(b *ssa.BasicBlock) bool { return b == L.header }
+	for i := range gv.Args {
+		eng := P.terms.withConst(map[ssa.Value]int64{L.idx: int64(i)})
+		for _, bp := range P.enumPaths(fn, L.body, isHeader, false) {
+			conds := condsWith(eng, bp.blocks, bp.stop)
+			if bp.ret == nil {
+				continue
+			}
+			if len(conds) != 1 || !conds[0].Val || ri >= len(bp.ret.Results) {
+				return nil
+			}
+			c := P.foldGlobals(conds[0].Pred)
+			if !(c.Op == "call" && strings.HasPrefix(c.S, "slices.Contains[") && len(c.Args) == 2 && c.Args[1].eq(pt) && c.Args[0].Op == "arr") {
+				return nil
+			}
+			val := P.foldGlobals(eng.of(bp.ret.Results[ri]))
+			if val.Op != "const" {
+				return nil
+			}
+			for _, k := range c.Args[0].Args {
+				if k.Op != "const" {
+					return nil
+				}
+				if _, dup := out[k.String()]; !dup {
+					out[k.String()] = val.String()
+				}
+			}
+		}
+	}
+	// behind the loop
+	n := 0
+	for _, ep := range P.enumPaths(fn, L.exit, nil, false) {
+		if ep.ret == nil || len(ep.conds) != 0 || ri >= len(ep.ret.Results) {
+			return nil
+		}
+		d := P.terms.of(ep.ret.Results[ri])
+		if d.Op != "const" {
+			return nil
+		}
+		out["default"] = d.String()
+		n++
+	}
+	if n != 1 {
+		return nil
+	}
+	// nothing returns before the loop
+	for _, pre := range P.enumPaths(fn, fn.Blocks[0], isHeader, false) {
+		if pre.ret != nil || len(pre.conds) != 0 {
+			return nil
 		}
 	}
 	return out
